@@ -6,7 +6,7 @@ From Coq Require Import String.
 From Coq Require Import List Bool Arith NArith.
 Import ListNotations.
 Require Import Kinds PyStr Line Matcher Ast Builder Compiler Automaton Pipeline Stream TokenFormatter Json
-               Stub Table Dialects Regex RefSem.
+               Stub Table Dialects Regex RefSem MatcherMd.
 
 Definition jget (k : string) (j : json) : option json :=
   match j with
@@ -284,6 +284,21 @@ Definition dispatch (fname : str) (args : list json) : json :=
       | _, _ => j_err "stub_match_token: kinds"
       end
     | _ => j_err "stub_match_token: arguments"
+    end
+  else if str_eqb fname (s2l "match_md") then
+    (* GherkinInMarkdownTokenMatcher.match_K on one line *)
+    match args with
+    | [k; ms; JBool seen; JStr line; JNum n] =>
+      match d_kind k, d_mstate ms with
+      | Some k, Some m =>
+        match md_matcher k (mk_mdstate m seen) (raw_token line n) with
+        | Some (MdNo t' m') => JObj [jk "ans" (JBool false); jk "token" (j_token t'); jk "seen" (JBool (md_feature_seen m'))]
+        | Some (MdYes t' m') => JObj [jk "ans" (JBool true); jk "token" (j_token t'); jk "seen" (JBool (md_feature_seen m'))]
+        | None => j_err "match_md: kind not modelled"
+        end
+      | _, _ => j_err "match_md: kind or matcher state does not decode"
+      end
+    | _ => j_err "match_md: arguments"
     end
   else if str_eqb fname (s2l "ref_accepts") then
     (* the reference semantics of the grammar (RefSem.v) on a kind sequence without EOF *)
